@@ -8,7 +8,7 @@ TRUSTED_BASE = []
 ASSUMPTIONS = []
 EXPLANATION = ""
 LEVEL_TEXT = "Ghost protocol automaton threaded through validated(), validate_row, Reader.rows and close(): every plug-in call carries a 'permitted now' obligation; postconditions fix the final automaton state."
-LEVEL_NOTE = "Trusts the pyvc encoding (cross-checked by recording stubs natively), z3/cvc5; class-map filling by reflection is a bounded stand-in."
+LEVEL_NOTE = "Trusts the pyvc encoding (cross-checked by recording stubs natively), z3/cvc5; the class map is built under contract (Cid._create_name_to_class_map); which classes exist - the transitive __subclasses__() closure of Cid._all_subclasses and import_plugins - is reflection and stays a bounded stand-in (class trees up to four levels, plug-in folders in subprocesses)."
 TECHNIQUE = "contract-based deductive verification with ghost protocol automata (VCs from the ast of the real functions, z3/cvc5)"
 UNITS = [ST.unit_field_class_structure(), F.unit_validated(), VIO.unit_validate_row(), VIO.unit_reader_rows(), VIO.unit_close(), VIO.unit_module_rows_validate(), VIO.unit_writer_init(), VIO.unit_writer_write_row(), IF.unit_create_class_and_check_row(), IF.unit_add_check_row(), IF.unit_add_check(), IF.unit_add_field_format_row(), PR.unit_protocol_sweep()]
 UNITS += [ST.unit_no_hidden_state(), IF.unit_cid_init(), IF.unit_create_name_to_class_map()]
